@@ -428,10 +428,7 @@ package raft
 //@   modifies Lfirst, Llast, Lterm, Ltyp, Ldata
 //@   ensures err == nil ==> 0 <= Lfirst && Lfirst <= Llast
 //@ iface Log.Close() (err)
-//@ iface StateMachine.Restore(snapshotReader) (err)
-//@ iface StateMachine.Snapshot(snapshotWriter) (err)
 //@ iface StateMachine.NeedSnapshot(logSize) (result)
-//@ iface StateMachine.Apply(operation) (result)
 //@ iface Transport.DecodeConfiguration(data) (configuration, err)
 //@   ensures ioOK ==> err == nil
 //@   ensures err == nil ==> configuration.Members != nil && configuration.IsVoter != nil
@@ -590,8 +587,10 @@ package raft
 //@ ghost sfPublished map[int]bool
 //@ ghost snapIndex int
 //@ ghost snapTerm int
-// fsmIndex: index of the last replicated operation the state machine has absorbed.
+// fsmIndex: index of the last replicated operation the state machine has absorbed. Apply,
+// Snapshot and Restore are called WITHOUT the node lock, so the lock does not protect it.
 //@ ghost fsmIndex int
+//@ unprotected fsmIndex
 
 //@ iface SnapshotStorage.NewSnapshotFile(lastIncludedIndex, lastIncludedTerm, configuration) (file, err)
 //@   modifies sfIndex, sfTerm, sfConf, sfPos, sfWriter, sfPublished
@@ -652,3 +651,21 @@ package raft
 //@   at before-assign r.lastApplied assert [IS.applied-monotone] newval >= r.lastApplied
 //@   at before-assign r.commitIndex assert [IS.commit-monotone] newval >= r.commitIndex
 //@   at before-assign r.lastIncludedIndex assert [IS.included-monotone] newval > r.lastIncludedIndex && newval == X
+
+//@ iface StateMachine.Apply(operation) (result)
+//@   modifies fsmIndex
+//@   ensures operation.OperationType == Replicated ==> fsmIndex == operation.LogIndex
+//@   ensures operation.OperationType != Replicated ==> fsmIndex == old(fsmIndex)
+//@ iface StateMachine.Snapshot(snapshotWriter) (err)
+//@ iface StateMachine.Restore(snapshotReader) (err)
+//@   modifies fsmIndex
+//@   ensures err == nil ==> fsmIndex == sfIndex[snapshotReader]
+
+//@ func Raft.snapshotLoop
+
+//@ func Raft.takeSnapshot
+//@   flags inline lockheld
+//@   at call r.snapshotStorage.NewSnapshotFile assert [label] arg0 == r.lastApplied && arg1 == Lterm[r.lastApplied] && r.lastApplied > r.lastIncludedIndex && inLog(r.lastApplied) && r.committedConfiguration != nil && r.committedConfiguration.Index <= r.lastApplied
+//@   at call r.fsm.Snapshot assert [snapshot-exact] fsmIndex == sfIndex[snapshot]
+//@   at call r.log.Compact assert [compact-label] arg0 == r.lastIncludedIndex && r.lastIncludedIndex == lastAppliedEntry.Index && r.lastIncludedTerm == lastAppliedEntry.Term && r.lastIncludedIndex <= r.lastApplied
+//@   at before-assign r.lastIncludedIndex assert [included-monotone] newval > r.lastIncludedIndex
